@@ -1,3 +1,244 @@
-import DosModel.Model.Util
--- stub: no model driver for this property yet
-def main : IO Unit := Dos.lineLoop (fun _ => "unimplemented")
+/-
+C08 driver: maps a case line of go/props/c08 to the symbolic model's output line.
+The universe is the discrete-log instance `Zr` with fixed, pairwise distinct keys; the
+real run uses random keys – only the classification (status / error kind / certified)
+is compared, and that does not depend on the key values.
+-/
+import DosModel.Model.VssZr
+
+open Dos Dos.Vss
+
+namespace Dos.C08Drv
+
+abbrev S := Zr
+abbrev P := Zr
+def g : P := Zr.g
+
+structure Univ where
+  n : Nat
+  t : Nat
+  secs : List S
+  pubs : List P
+  dlong : S
+  olong : S
+  fresh : S
+  f : List S
+
+def mkUniv (n t : Nat) : Univ :=
+  let secs := (List.range n).map (fun k => Zr.ofNat (1000 + 7 * k))
+  { n := n, t := t, secs := secs, pubs := secs.map (fun s => s • g),
+    dlong := Zr.ofNat 501, olong := Zr.ofNat 502, fresh := Zr.ofNat 503,
+    f := (List.range t).map (fun m => Zr.ofNat (11 + 3 * m)) }
+
+/-- a field of the encrypted deal under byte-level mutation: the term it started from and, per
+byte position, whether the byte still is the original one (`0`) -/
+structure Fld (α : Type) where
+  base : α
+  diff : List Nat
+
+def Fld.fresh {α : Type} (a : α) (len : Nat) : Fld α := ⟨a, List.replicate len 0⟩
+def Fld.changed {α : Type} (f : Fld α) (len : Nat) : Bool := f.diff != List.replicate len 0
+
+def xorAt (l : List Nat) (pos mask : Nat) : List Nat :=
+  if l.length = 0 then l else l.modify (pos % l.length) (fun b => Nat.xor b mask)
+
+structure MutState where
+  dh : Fld (DhBytes P)
+  sig : Fld (DhSig S P)
+  nonce : Bytes
+  cipher : Fld (Cipher S P)
+
+def cipherLen (t : Nat) : Nat := 354 + (t - 2) * 132
+
+def initState (t : Nat) (e : EncDeal S P) : MutState :=
+  { dh := Fld.fresh e.dh 129, sig := Fld.fresh e.sig 161, nonce := e.nonce, cipher := Fld.fresh e.cipher (cipherLen t) }
+
+def finish (t : Nat) (s : MutState) : EncDeal S P :=
+  { dh := if s.dh.changed 129 then .other none 77 else s.dh.base
+    sig := if s.sig.changed 161 then .junk 77 else s.sig.base
+    nonce := s.nonce
+    cipher := if s.cipher.changed (cipherLen t) then .junk 77 else s.cipher.base }
+
+def parseNat (s : String) : Nat := s.toNat?.getD 0
+
+def applyMut (u : Univ) (i : Nat) (eSecond : EncDeal S P) (st : MutState) (m : String) : MutState :=
+  let p := m.splitOn ":"
+  let fld := p.getD 1 ""
+  match p.getD 0 "" with
+  | "xor" =>
+    let pos := parseNat (p.getD 2 ""); let mask := parseNat (p.getD 3 "")
+    match fld with
+    | "dh" => { st with dh := { st.dh with diff := xorAt st.dh.diff pos mask } }
+    | "sig" => { st with sig := { st.sig with diff := xorAt st.sig.diff pos mask } }
+    | "cipher" => { st with cipher := { st.cipher with diff := xorAt st.cipher.diff pos mask } }
+    | _ =>
+      if st.nonce.length = 0 then st
+      else { st with nonce := st.nonce.modify (pos % st.nonce.length) (fun b => b ^^^ UInt8.ofNat mask) }
+  | "addp" =>   -- a coordinate of the leading point made non-reduced: other bytes (rejected since 1d47f6b)
+    match fld with
+    | "dh" => { st with dh := { st.dh with diff := xorAt st.dh.diff 1 255 } }
+    | _ => { st with sig := { st.sig with diff := xorAt st.sig.diff 1 255 } }
+  | "trunc" =>
+    let k := parseNat (p.getD 2 "")
+    match fld with
+    | "dh" => { st with dh := { st.dh with diff := st.dh.diff.take (st.dh.diff.length - k) } }
+    | "sig" => { st with sig := { st.sig with diff := st.sig.diff.take (st.sig.diff.length - k) } }
+    | "cipher" => { st with cipher := { st.cipher with diff := st.cipher.diff.take (st.cipher.diff.length - k) } }
+    | _ => { st with nonce := st.nonce.take (st.nonce.length - k) }
+  | "ext" =>
+    let k := parseNat (p.getD 2 "")
+    match fld with
+    | "dh" => { st with dh := { st.dh with diff := st.dh.diff ++ List.replicate k 256 } }
+    | "sig" => { st with sig := { st.sig with diff := st.sig.diff ++ List.replicate k 256 } }
+    | "cipher" => { st with cipher := { st.cipher with diff := st.cipher.diff ++ List.replicate k 256 } }
+    | _ => { st with nonce := st.nonce ++ List.replicate k 0 }
+  | "swap" =>
+    let src := p.getD 2 ""
+    let e2 : Option (EncDeal S P) :=
+      if src = "c" then some eSecond
+      else if src = "d" then
+        sealDeal g u.olong u.pubs i (Zr.ofNat 9004) 4 (.deal (honestDeal g u.olong u.pubs u.f i))
+      else
+        let i2 := parseNat (src.drop 1).toString % u.n
+        sealDeal g u.dlong u.pubs i2 (Zr.ofNat (9010 + i2)) 5 (.deal (honestDeal g u.dlong u.pubs u.f i2))
+    match e2 with
+    | none => st
+    | some e2 =>
+      (fld.splitOn "+").foldl (fun st fn =>
+        match fn with
+        | "dh" => { st with dh := Fld.fresh e2.dh 129 }
+        | "sig" => { st with sig := Fld.fresh e2.sig 161 }
+        | "cipher" => { st with cipher := Fld.fresh e2.cipher (cipherLen u.t) }
+        | _ => { st with nonce := e2.nonce }) st
+  | _ => st
+
+def applyList (u : Univ) (ls : String) : List P × List S :=
+  let p := ls.splitOn ":"
+  let n := u.n
+  match p.getD 0 "" with
+  | "swap" =>
+    let a := parseNat (p.getD 1 "") % n; let b := parseNat (p.getD 2 "") % n
+    let sw {α : Type} (l : List α) : List α :=
+      match l[a]?, l[b]? with
+      | some x, some y => (l.set a y).set b x
+      | _, _ => l
+    (sw u.pubs, sw u.secs)
+  | "repl" =>
+    let m := parseNat (p.getD 1 "") % n
+    (u.pubs.set m (u.fresh • g), u.secs.set m u.fresh)
+  | "drop" => (u.pubs.take (n - 1), u.secs.take (n - 1))
+  | "add" => (u.pubs ++ [u.fresh • g], u.secs ++ [u.fresh])
+  | _ => (u.pubs, u.secs)
+
+/-- `ProcessEncryptedDeal`, then every other member's signed approval, then `Deal() != nil` -/
+def processAndFeed (v : Verifier S P) (e : EncDeal S P) (secs : List S) : String × Verifier S P :=
+  let (v1, r) := processEncryptedDeal g v e
+  let res := match r with
+    | .error err => "err " ++ err.name
+    | .ok resp => if resp.status then "ok approve" else "ok complaint"
+  let v2 := match v1.agg with
+    | none => v1
+    | some a =>
+      (List.range secs.length).foldl (fun (v : Verifier S P) k =>
+        if k = v.index then v else
+        match secs[k]? with
+        | none => v
+        | some sk =>
+          let r : Response S P := { sid := a.sid, index := k, status := true, sig := .sign sk a.sid k true 0 }
+          (v.processResponse g r).1) v1
+  (res, v2)
+
+def certOf (v : Verifier S P) : Nat :=
+  match v.dealOut with
+  | some (some _) => 1
+  | _ => 0
+
+def runEnc (w : List String) : String :=
+  match w with
+  | [_, _seed, n, t, i, j, dl, ls, mu] =>
+    let n := parseNat n; let t := parseNat t; let i := parseNat i; let j := parseNat j
+    let u := mkUniv n t
+    if validT t n = false then "err newdealer" else
+    match sealDeal g u.dlong u.pubs i (Zr.ofNat 9001) 1 (.deal (honestDeal g u.dlong u.pubs u.f i)),
+          sealDeal g u.dlong u.pubs i (Zr.ofNat 9002) 2 (.deal (honestDeal g u.dlong u.pubs u.f i)) with
+    | some e0, some eSecond =>
+      let st := if mu = "-" then initState t e0 else (mu.splitOn ";").foldl (applyMut u i eSecond) (initState t e0)
+      let e := finish t st
+      let dpub : P :=
+        if dl = "same" then u.dlong • g
+        else if dl = "other" then u.olong • g
+        else (u.pubs[parseNat (dl.drop 3).toString % n]?).getD (u.olong • g)
+      let (lp, lsecs) := applyList u ls
+      match u.secs[j]? with
+      | none => "bad-op"
+      | some xj =>
+        match newVerifier g xj dpub lp with
+        | .error _ => "err notmember cert=0"
+        | .ok v =>
+          let (res, v2) := processAndFeed v e lsecs
+          s!"{res} cert={certOf v2} fresh=1"
+    | _, _ => "bad-op"
+  | _ => "bad-op"
+
+def parseInt (s : String) : Int := s.toInt?.getD 0
+
+def runPl (w : List String) : String :=
+  match w with
+  | [_, _seed, n, t, i, dev] =>
+    let n := parseNat n; let t := parseNat t; let i := parseNat i
+    let u := mkUniv n t
+    let dpub := u.dlong • g
+    let p := dev.splitOn ":"
+    let arg := p.getD 1 ""
+    let kind := p.getD 0 ""
+    let f := u.f
+    let base : Deal S P := honestDeal g u.dlong u.pubs f i
+    let pad (l : Nat) (fs : List S) : List S := (fs ++ (List.range l).map (fun m => Zr.ofNat (777 + m))).take l
+    let sidOf (dealer : P) (commits : List P) (tt : Nat) : Sid P := .h dealer u.pubs commits tt
+    let d : Deal S P :=
+      match kind with
+      | "badshare" => { base with share := some ⟨(i : Int), some (priEval f (i : Int) + 1)⟩ }
+      | "T" => let v := parseNat arg % 4294967296; { base with t := v, sid := sidOf dpub base.commits v }
+      | "Tx" => { base with t := parseNat arg % 4294967296 }
+      | "idx" => let k := parseInt arg; { base with share := some ⟨k, some (priEval f k)⟩ }
+      | "nilshare" => { base with share := none }
+      | "nilv" => { base with share := some ⟨(i : Int), none⟩ }
+      | "noplain" => { sid := .raw 0, share := none, t := 0, commits := [] }
+      | "clen" =>
+        let l := parseNat arg
+        let cs := ((base.commits ++ (List.range l).map (fun m => Zr.ofNat (555 + m) • g)).take l)
+        { base with commits := cs, sid := sidOf dpub cs t }
+      | "clenc" =>
+        let f2 := pad (parseNat arg) f
+        { base with commits := commit g f2, sid := sidOf dpub (commit g f2) t,
+                    share := some ⟨(i : Int), some (priEval f2 (i : Int))⟩ }
+      | "sid" =>
+        match arg with
+        | "othert" => { base with sid := sidOf dpub base.commits (t + 1) }
+        | "otherc" => { base with sid := sidOf dpub (commit g (Zr.ofNat 999 :: f.drop 1)) t }
+        | "otherd" => { base with sid := sidOf (u.olong • g) base.commits t }
+        | "raw" => { base with sid := .raw 1 }
+        | "zero" => { base with sid := .raw 2 }
+        | _ => { base with sid := .raw 0 }
+      | _ => base
+    match sealDeal g u.dlong u.pubs i (Zr.ofNat 9001) 1 (.deal d), u.secs[i]? with
+    | some e, some xi =>
+      match newVerifier g xi dpub u.pubs with
+      | .error _ => "err notmember cert=0"
+      | .ok v =>
+        let v := if kind = "twice" then (processEncryptedDeal g v e).1 else v
+        let (res, v2) := processAndFeed v e u.secs
+        s!"{res} cert={certOf v2}"
+    | _, _ => "bad-op"
+  | _ => "bad-op"
+
+def step (line : String) : String :=
+  let w := words line
+  match w.head? with
+  | some "enc" => runEnc w
+  | some "pl" => runPl w
+  | _ => "bad-op"
+
+end Dos.C08Drv
+
+def main : IO Unit := Dos.lineLoop Dos.C08Drv.step
